@@ -314,12 +314,42 @@ static const char *random_lex_word(vh_rng *r, int lang)
     }
     return valid_pool[lang][0];
 }
+/* a lexicon word of which w is a proper prefix, or which is a proper prefix of w (go / gone, for / forward): spellings that
+ * only a full-length comparison tells apart */
+static const char *related_word(vh_rng *r, int lang, const char *w)
+{
+    const vd_lex *lx = vd_lexicon(lang); size_t len = strlen(w); int i, seen = 0; const char *pick = NULL;
+    for (i = 0; i < lx->n; ++i) {
+        const char *c = lx->word[i]; size_t cl;
+        if (c[0] != w[0]) continue;
+        cl = strlen(c);
+        if (cl == len || cl > 24 || !(cl > len ? strncmp(c, w, len) == 0 : strncmp(w, c, cl) == 0)) continue;
+        if (strchr(c, '(') || !word_ok_for_jsgf(c) || vd_is_filler_word(c)) continue;
+        if (vh_below(r, (uint32_t)++seen) == 0) pick = c;
+    }
+    return pick;
+}
 /* choose nw distinct base words */
 static int pick_vocab(vh_rng *r, int lang, int nw, int with_transcript, const char **out)
 {
     int n = 0, i, guard = 0; const char **tr = lang == VD_FR ? fr_transcript : en_transcript;
     pool_init(lang);
     if (with_transcript) for (i = 0; i < 4 && n < nw; ++i) out[n++] = tr[i];
+    if (vh_chance(r, 0.15)) {
+        /* prefix families: some of the words are prefixes / extensions of others in the same grammar */
+        int fam = vh_range(r, 1, 3), tries;
+        if (n == 0) out[n++] = valid_pool[lang][vh_below(r, (uint32_t)nvalid[lang])];
+        for (tries = 0; tries < 6 && fam > 0 && n < nw; ++tries) {
+            const char *w = related_word(r, lang, out[vh_below(r, (uint32_t)n)]); int dup = 0;
+            if (!w) continue;
+            for (i = 0; i < n; ++i) if (!strcmp(out[i], w)) dup = 1;
+            if (dup) continue;
+            /* half of the time before the word it is related to, so that either may be seen first */
+            if (vh_chance(r, 0.5) && !with_transcript) { out[n++] = out[0]; out[0] = w; } else out[n++] = w;
+            --fam;
+        }
+        vh_count("vocabularies_with_prefix_pairs", 1);
+    }
     while (n < nw && ++guard < 400) {
         const char *w = vh_chance(r, 0.75) ? valid_pool[lang][vh_below(r, (uint32_t)nvalid[lang])] : random_lex_word(r, lang);
         int dup = 0; for (i = 0; i < n; ++i) if (!strcmp(out[i], w)) dup = 1;
